@@ -12,7 +12,7 @@
    input at any time (nothing invented, reordered or duplicated), and if the driver finished
    the items sent are exactly [ref items] and the downstream was finalized. *)
 From Coq Require Import List NArith Bool.
-From HV Require Import Push.Model Push.PBase Push.POne Push.PTwo Push.PFlatMap Push.PMore Push.PTwoOnce.
+From HV Require Import Push.Model Push.PBase Push.POne Push.PTwo Push.PFlatMap Push.PMore Push.PTwoOnce Push.PDemux Push.Run.
 Import ListNotations.
 
 Theorem C12_map : forall A B (f : A -> B) fuel items rs0 fs0,
@@ -181,6 +181,35 @@ Theorem C12_unzip_fixed_terminates : forall A B fuel (items : list (A * B)) r0 f
                     ((false, false), (mkds r0 f0 [], mkds r1 f1 [])) [])) = Finished.
 Proof. exact unzip_once_terminates. Qed.
 Print Assumptions C12_unzip_fixed_terminates.
+
+(* demux_var.rs over any number of downstreams.  Items must address an existing downstream
+   ([in_range]; otherwise the code panics: PushVariadic for ()).  [downs_spec k items o l]:
+   downstream number k+i (i-th of l) satisfies [down_spec (demux_ref (k+i))]: it receives exactly
+   the items addressed to it, in order. *)
+Theorem C12_demux_fixed : forall A fuel (items : list (nat * A)) (scripts : list (list bool * list bool)),
+    Forall (in_range (length scripts)) items ->
+    match drive (demux_once_push (rec_push A)) fuel items ([], map (@ds0 A) scripts) [] with
+    | (o, _, s') => o <> Panicked /\ length (snd s') = length scripts /\ downs_spec 0 items o (snd s')
+    end.
+Proof. exact (@demux_once_correct). Qed.
+Print Assumptions C12_demux_fixed.
+
+(* before the fix: weak protocol only (same finding as fanout / unzip) *)
+Theorem C12_demux_partial : forall A fuel (items : list (nat * A)) (scripts : list (list bool * list bool)),
+    Forall (in_range (length scripts)) items ->
+    match drive (demux_push (rec_push A)) fuel items (map (@ds0 A) scripts) [] with
+    | (o, _, s') => o <> Panicked /\ length s' = length scripts /\ downs_spec_weak 0 items o s'
+    end.
+Proof. exact (@demux_correct). Qed.
+Print Assumptions C12_demux_partial.
+
+Theorem C12_demux_strict_refuted : exists (items : list (nat * N)) (scripts : list (list bool * list bool)),
+    Forall (in_range (length scripts)) items /\
+    match drive (demux_push (rec_push N)) 10 items (map (@ds0 N) scripts) [] with
+    | (o, _, s') => o = Finished /\ wf (lg (hd (mkds [] [] []) s')) = false
+    end.
+Proof. exists [], [([], []); ([], [false])]. split; [constructor|]. vm_compute. auto. Qed.
+Print Assumptions C12_demux_strict_refuted.
 
 (* non-vacuity: a run with Pend answers in both scripts that finishes and delivers items *)
 Example C12_map_example :
